@@ -134,8 +134,17 @@ def compare(chk: Check, arena: Arena, behaviours, results, broken, expected, blo
     for i, beh in enumerate(behaviours):
         if i in broken:
             why, at = getattr(arena, "break_reasons", {}).get(i, (arena.last_end, arena.broke_at))
-            st = beh[min(len(beh) - 1, max(0, at[1]))]
-            blk = blocks[st["block"]]
+            kbroke = min(len(beh) - 1, max(0, at[1]))
+            # a macro that does not come back may only be the victim of an EARLIER step that already left a wrong value (a wild
+            # pointer, say): the steps before it are run again on their own and judged first - the first wrong step is the finding
+            if kbroke > 0 and expected.get(i) is not None:
+                pre = arena.run([beh[:kbroke]], budget_s=120.0)[0]
+                if pre is not None:
+                    before = len(chk.violations) + sum(chk.known_hits.values())
+                    nsteps += _compare_steps(chk, arena, beh[:kbroke], pre, expected[i][:kbroke], blocks, tag)
+                    if len(chk.violations) + sum(chk.known_hits.values()) > before:
+                        continue
+            blk = blocks[beh[kbroke]["block"]]
             chk.violation({"macro": blk.name, "what": "did-not-return"},
                           f"{tag}: macro {blk.name} (n={blk.n}) never came back to a marker ({why})", {"behaviour": beh, "block": blk.fj})
             continue
@@ -144,6 +153,14 @@ def compare(chk: Check, arena: Arena, behaviours, results, broken, expected, blo
             continue
         if exp is None:
             raise MachineryFailure(f"no oracle output for behaviour {i}")
+        nsteps += _compare_steps(chk, arena, beh, got, exp, blocks, tag)
+    return nsteps
+
+
+def _compare_steps(chk: Check, arena: Arena, beh, got, exp, blocks, tag: str) -> int:
+    """judge the observed steps of one behaviour against TLC's expected states; reports the first step that differs"""
+    nsteps = 0
+    if True:
         for k, (g, e) in enumerate(zip(got, exp)):
             nsteps += 1
             blk = blocks[beh[k]["block"]]
